@@ -11,13 +11,16 @@ with the implementation's result on generated programs and on their rearrangemen
   * scalars      : `Sc` with `Sc.meet` (a meet-semilattice with `none` = bottom):
                    int / string / bool / null atoms, the basic types int, string, bool and
                    inclusive integer ranges `int & >=lo & <=hi`.
-  * values       : `Val` = bot | top | scalar | struct.  A struct is the list of its arcs
-                   indexed by label number (slot i describes label i); `Slot.none` = no
-                   arc.  A closed struct forbids arcs it does not have.
+  * values       : `Val` = bot | top | scalar | struct | list.  A struct is the list of its
+                   arcs indexed by label number (slot i describes label i); `Slot.none` =
+                   no arc.  A closed struct forbids arcs it does not have.  Lists are closed
+                   lists: they unify element-wise when of equal length, else bottom; a
+                   bottom element makes the list bottom.
   * `unify`      : bottom absorbs, top is the identity, structs merge slot-wise, arc types
                    merge by "most present wins" (regular < required < optional),
                    a bottom REGULAR field makes the struct bottom.
-  * expressions  : literals, `&`, struct literals (fields and embeddings), `close(e)`.
+  * expressions  : literals, `&`, struct literals (fields and embeddings), `close(e)`,
+                   list literals.
 
 Core Lean only.
 -/
@@ -122,17 +125,38 @@ inductive Val where
   | top
   | sc (s : Sc)
   | struct (slots : Slots) (closed : Bool)
+  | list (elems : Vals)
 inductive Slots where
   | nil
   | cons (s : Slot) (rest : Slots)
 inductive Slot where
   | none
   | some (t : ArcTy) (v : Val)
+inductive Vals where
+  | nil
+  | cons (v : Val) (rest : Vals)
 end
 
 instance : Inhabited Val := ⟨.bot⟩
 
-deriving instance DecidableEq for Val, Slots, Slot
+deriving instance DecidableEq for Val, Slots, Slot, Vals
+
+def Val.isBot : Val → Bool
+  | .bot => true
+  | _ => false
+
+def Vals.hasBot : Vals → Bool
+  | .nil => false
+  | .cons v rest => v.isBot || rest.hasBot
+
+/-- a list with a bottom element is bottom -/
+def normL (vs : Vals) : Val :=
+  if vs.hasBot then .bot else .list vs
+
+/-- the result of unifying two lists element-wise; `none` = the lengths differ -/
+def listRes : Option Vals → Val
+  | some vs => normL vs
+  | none => .bot
 
 /-- a regular field whose value is bottom -/
 def Slot.isRegBot : Slot → Bool
@@ -176,20 +200,40 @@ def unify : Val → Val → Val
   | .sc s, .top => .sc s
   | .sc s, .sc t => scMeet s t
   | .sc _, .struct _ _ => .bot
+  | .sc _, .list _ => .bot
   | .struct _ _, .bot => .bot
   | .struct xs c, .top => .struct xs c
   | .struct _ _, .sc _ => .bot
   | .struct xs c, .struct ys d => normS (mergeSlots xs c ys d) (c || d)
+  | .struct _ _, .list _ => .bot
+  | .list _, .bot => .bot
+  | .list xs, .top => .list xs
+  | .list _, .sc _ => .bot
+  | .list _, .struct _ _ => .bot
+  | .list xs, .list ys => listRes (zipU xs ys)
+termination_by structural a => a
 /-- slot-wise merge; `c`, `d` are the closed flags of the two sides; the missing slots of
 the shorter list behave as `Slot.none` of that side -/
 def mergeSlots : Slots → Bool → Slots → Bool → Slots
   | .nil, c, ys, _ => closeBy c ys
   | .cons x xs, _, .nil, d => closeBy d (.cons x xs)
   | .cons x xs, c, .cons y ys, d => .cons (mergeSlot x c y d) (mergeSlots xs c ys d)
+termination_by structural xs => xs
 def mergeSlot : Slot → Bool → Slot → Bool → Slot
   | .none, c, y, _ => closeSlot c y
   | .some t v, _, .none, d => closeSlot d (.some t v)
   | .some t v, _, .some t' w, _ => .some (t.min t') (unify v w)
+termination_by structural x => x
+/-- element-wise unification of two lists; `none` when the lengths differ -/
+def zipU : Vals → Vals → Option Vals
+  | .nil, .nil => some .nil
+  | .nil, .cons _ _ => none
+  | .cons _ _, .nil => none
+  | .cons x xs, .cons y ys =>
+    match zipU xs ys with
+    | some r => some (.cons (unify x y) r)
+    | none => none
+termination_by structural xs => xs
 end
 
 /-- CUE's `close()`: one level only -/
@@ -214,16 +258,21 @@ def Val.wf : Val → Bool
   | .top => true
   | .sc s => s.wf
   | .struct xs _ => xs.wf && xs.noTrail && !xs.hasRegBot
+  | .list vs => vs.wf && !vs.hasBot
 def Slots.wf : Slots → Bool
   | .nil => true
   | .cons s rest => s.wf && rest.wf
 def Slot.wf : Slot → Bool
   | .none => true
   | .some _ v => v.wf
+def Vals.wf : Vals → Bool
+  | .nil => true
+  | .cons v rest => v.wf && rest.wf
 end
 
 /-- normal form: no trailing `Slot.none`, no bottom regular field (such a struct IS
-bottom), all scalars normalised — recursively -/
+bottom), no bottom list element (such a list IS bottom), all scalars normalised —
+recursively -/
 def Val.WF (v : Val) : Prop := v.wf = true
 
 instance (v : Val) : Decidable v.WF := inferInstanceAs (Decidable (v.wf = true))
@@ -238,17 +287,21 @@ inductive Expr where
   | and (a b : Expr)
   | struct (ds : Decls)
   | close (e : Expr)
+  | list (es : Exprs)
 inductive Decls where
   | nil
   | cons (d : Decl) (rest : Decls)
 inductive Decl where
   | field (l : Nat) (t : ArcTy) (e : Expr)
   | embed (e : Expr)
+inductive Exprs where
+  | nil
+  | cons (e : Expr) (rest : Exprs)
 end
 
 instance : Inhabited Expr := ⟨.bot⟩
 
-deriving instance DecidableEq for Expr, Decls, Decl
+deriving instance DecidableEq for Expr, Decls, Decl, Exprs
 
 def Decls.toList : Decls → List Decl
   | .nil => []
@@ -260,6 +313,17 @@ def Decls.ofList : List Decl → Decls
 
 /-- a struct literal given by the list of its declarations -/
 def Expr.structL (ds : List Decl) : Expr := .struct (Decls.ofList ds)
+
+def Exprs.toList : Exprs → List Expr
+  | .nil => []
+  | .cons e rest => e :: rest.toList
+
+def Exprs.ofList : List Expr → Exprs
+  | [] => .nil
+  | e :: rest => .cons e (Exprs.ofList rest)
+
+/-- a list literal given by the list of its elements -/
+def Expr.listL (es : List Expr) : Expr := .list (Exprs.ofList es)
 
 /-- the slot list with a single arc at label `l` -/
 def single : Nat → Slot → Slots
@@ -283,6 +347,7 @@ def eval : Expr → Val
   | .struct .nil => .struct .nil false
   | .struct (.cons d ds) => evalDecls (.cons d ds)
   | .close e => closeV (eval e)
+  | .list es => normL (evalList es)
 /-- the declarations of one struct literal / one file, unified, starting from top -/
 def evalDecls : Decls → Val
   | .nil => .top
@@ -290,6 +355,9 @@ def evalDecls : Decls → Val
 def evalDecl : Decl → Val
   | .field l t e => fieldV l t (eval e)
   | .embed e => eval e
+def evalList : Exprs → Vals
+  | .nil => .nil
+  | .cons e rest => .cons (eval e) (evalList rest)
 end
 
 def evalDeclsL (ds : List Decl) : Val := evalDecls (Decls.ofList ds)
